@@ -1071,7 +1071,7 @@ impl<'g> Cx<'g> {
                     _ => {}
                 }
             }
-            if (segs[0] == "Vec" && last == "new" && args.is_empty()) || (segs[0] == "Bytes" && last == "new" && args.is_empty()) {
+            if ((segs[0] == "Vec" || segs[0] == "VecDeque") && last == "new" && args.is_empty()) || (segs[0] == "Bytes" && last == "new" && args.is_empty()) {
                 let et = match exp {
                     Some(Ty::List(t, _)) => (**t).clone(),
                     _ => Ty::Unknown,
@@ -1121,16 +1121,21 @@ impl<'g> Cx<'g> {
             return self.bail(whole.span(), format!("`{}` is only supported as a statement on a place", name));
         }
         // iterator `next()` on a place: head of the list, the place keeps the tail
-        if name == "next" && m.args.is_empty() && self.is_place(&m.receiver) {
+        if (name == "next" || name == "pop_front") && m.args.is_empty() && self.is_place(&m.receiver) {
             let pl = self.place(&m.receiver, stmts)?;
-            if let Ty::List(et, ListKind::Iter) = pl.ty() {
+            let ok_kind = match (&pl.ty(), name.as_str()) {
+                (Ty::List(_, ListKind::Iter), "next") => true,
+                (Ty::List(_, ListKind::Vec), "pop_front") => true,
+                _ => false,
+            };
+            if let (true, Ty::List(et, _)) = (ok_kind, pl.ty()) {
                 let cur = self.read(&pl, stmts)?;
                 let t = self.fresh();
                 stmts.push(Stmt::Let(t.clone(), format!("(List.head? {})", cur)));
                 self.write(&pl, format!("(List.tail {})", cur), stmts)?;
                 return Ok((t, Ty::Opt(et)));
             }
-            return self.bail(whole.span(), "`next()` is only supported on a slice iterator variable");
+            return self.bail(whole.span(), "`next()` / `pop_front()` are only supported on a slice iterator / VecDeque place");
         }
         // translated methods first (receiver of a translated type)
         let mut probe: Vec<Stmt> = Vec::new();
@@ -1182,6 +1187,32 @@ impl<'g> Cx<'g> {
             (Ty::List(e, k), "iter", 0) if *k != ListKind::Iter => Ok((r, Ty::List(e.clone(), ListKind::Iter))),
             (Ty::List(e, ListKind::Iter), "rev", 0) => Ok((format!("(List.reverse {})", r), Ty::List(e.clone(), ListKind::Iter))),
             (Ty::List(_, _), "len", 0) => Ok((format!("(RustSem.len {})", r), Ty::usize())),
+            (Ty::List(e, ListKind::Bytes), "slice", 1) => {
+                // `Bytes::slice(a..b)` (panics when the range is invalid, like slice indexing)
+                let rg = match args[0] {
+                    syn::Expr::Range(rg) if matches!(rg.limits, syn::RangeLimits::HalfOpen(_)) => rg,
+                    o => return self.bail(o.span(), "`Bytes::slice` needs a half-open range"),
+                };
+                let a = match &rg.start {
+                    Some(a) => self.expr(a, Some(&Ty::usize()), stmts)?.0,
+                    None => "0".to_string(),
+                };
+                let b = match &rg.end {
+                    Some(b) => self.expr(b, Some(&Ty::usize()), stmts)?.0,
+                    None => format!("(RustSem.len {})", r),
+                };
+                let v = self.fresh();
+                let site = self.site(whole);
+                stmts.push(Stmt::Bind(v.clone(), Doc::atom(format!("RustSem.slice {} {} {} {}", r, a, b, site))));
+                Ok((v, Ty::List(e.clone(), ListKind::Bytes)))
+            }
+            (Ty::Int(w), "div_ceil", 1) => {
+                let (a, _) = self.expr(args[0], Some(&rt), stmts)?;
+                let v = self.fresh();
+                let site = self.site(whole);
+                stmts.push(Stmt::Bind(v.clone(), Doc::atom(format!("RustSem.div_ceil {} {} {} {}", w, r, a, site))));
+                Ok((v, rt.clone()))
+            }
             (Ty::List(_, _), "is_empty", 0) => Ok((format!("(RustSem.is_empty {})", r), Ty::Bool)),
             (Ty::List(e, _), "to_vec", 0) => Ok((r, Ty::List(e.clone(), ListKind::Vec))),
             (Ty::List(_, _), "clone" | "as_slice" | "as_ref", 0) => Ok((r, rt.clone())),
